@@ -174,6 +174,20 @@ def validation_set(rng, est, X, style):
       P = np.linalg.solve(L, Z.reshape(-1, d).T).T.reshape(m, 2, d)
     else:
       P = X[rng.randint(0, n, size=(m, 2))]
+  elif style == 'huge':
+    # distances of 1e16 .. 1e18 and beyond (coordinates in nanometres,
+    # identifiers): neighbouring doubles are more than 1 apart, and the
+    # closest pairs are dissimilar, so that accepting nothing is optimal
+    m = int(rng.randint(3, 12))
+    P = X[rng.randint(0, n, size=(m, 2))] * 10.0 ** rng.uniform(17, 19)
+    y = rng.choice([-1, 1], size=m)
+    y[0], y[-1] = 1, -1
+    with np.errstate(all='ignore'):
+      order_ = np.argsort(est.pair_distance(P))
+    y[order_[:2]] = -1
+    if not (y == 1).any():
+      y[order_[-1]] = 1
+    return P, y
   else:
     P = X[rng.randint(0, n, size=(m, 2))]
   y = rng.choice([-1, 1], size=m)
@@ -195,7 +209,8 @@ def run_case(spec, j):
   api.set_judge(j)
   rng = rng_for('c16run', spec['vseed'])
   det0 = {'est': name}
-  styles = ['pool', 'dup', 'zero', 'lattice', 'random', 'ulp', 'allzero']
+  styles = ['pool', 'dup', 'zero', 'lattice', 'random', 'ulp', 'allzero',
+            'huge']
   for s in range(spec['nsets']):
     style = styles[s % len(styles)]
     P, y = validation_set(rng, est, X, style)
